@@ -788,8 +788,19 @@ func (h *HttpServer) handleExchangeCall(ctx context.Context, w http.ResponseWrit
 				// Use the batch's own (possibly projection-narrowed) schema
 				// and keep the per-emit metadata underneath the token.
 				bschema = ab.batch.Schema()
-				keys = append(keys, ab.meta.Keys()...)
-				values = append(values, ab.meta.Values()...)
+				// The cursor must be the only MetaStreamState entry on the
+				// batch: metadata lookups return the first match, so a
+				// per-emit key of the same name would shadow the token and
+				// the client would lose the stream. The token wins, as in
+				// Python's dict merge.
+				emitKeys, emitValues := ab.meta.Keys(), ab.meta.Values()
+				for j, k := range emitKeys {
+					if k == MetaStreamState {
+						continue
+					}
+					keys = append(keys, k)
+					values = append(values, emitValues[j])
+				}
 			}
 			keys = append(keys, MetaStreamState)
 			values = append(values, string(newToken))
